@@ -4,7 +4,8 @@
    the synthetic field environments satisfy the clauses on every grid 1..4 x 1..4).
 2. TLC enumerates the family of invokes (GOceanRegion!Family: offset x point
    type x iteration space, built-in and user-defined, one or two kernels, with
-   transformation histories).
+   transformation histories; F5: histories of configuration files loaded in one
+   process - AddBounds on the table of configured bounds, last definition wins).
 3. For every element the harness writes real algorithm / kernel / config files,
    builds the real schedule, applies the real transformations, generates the PSy
    layer and exports the generated loop nests (c25_build).
@@ -142,7 +143,9 @@ def _slim_case(rec, hist):
     return {"id": rec["id"], "family": desc["fam"],
             "kernels": [{"off": k["off"], "pt": k["pt"], "sp": k["sp"]}
                         for k in desc["kernels"]],
-            "iteration_spaces": rec["config_lines"], "hist": hist}
+            "iteration_spaces": (rec["config_lines"][0] if len(rec["config_lines"]) == 1
+                                 else rec["config_lines"]),
+            "hist": hist}
 
 
 def run(tier):
@@ -160,6 +163,16 @@ def run(tier):
         raise core.MachineryError("GOceanRegion.tla does not satisfy its own invariants: "
                                   + str(res.invariant_violated or res.error))
     cov["model_states"] = res.distinct
+    cov["states"] += res.distinct
+    cov["transitions"] += res.generated
+    # the process-wide table of configured bounds: last definition wins,
+    # other (offset, point type, name) entries are untouched
+    res = core.run_tlc("GOceanRegion.tla", "GOceanRegion_table.cfg", check=False,
+                       workers=min(4, core.NCPU))
+    if res.invariant_violated or res.error or not res.distinct:
+        raise core.MachineryError("GOceanRegion.tla (AddBounds) does not satisfy its own "
+                                  "invariants: " + str(res.invariant_violated or res.error))
+    cov["model_states"] += res.distinct
     cov["states"] += res.distinct
     cov["transitions"] += res.generated
 
@@ -264,7 +277,7 @@ def run(tier):
     for r in recs:
         if r["progs"] and len(cov["samples"]) < 4 and r["id"] % 61 == 0:
             cov["samples"].append({"kernels": _slim_case(r, "")["kernels"],
-                                   "iteration_spaces": r["config_lines"],
+                                   "configuration_files": r["config_lines"],
                                    "histories": len(r["status"]),
                                    "generated": r["texts"]})
     return out.finish(cov, assumptions=[
@@ -274,6 +287,11 @@ def run(tier):
         "environments - 'ref' (GOceanRegion!RefDelta, the model the constant-loop-bounds "
         "table is compared with) and two synthetic ones with distinct values per point type "
         "and member; constant-loop-bounds programs are executed in 'ref' only",
+        "configuration histories (family F5): the bounds table GOLoop._bounds_lookup is "
+        "emptied at the start of a history (as the repository's tests do) and kept while "
+        "further configuration files are loaded in the same process; a built-in space name "
+        "re-defined in a configuration file is judged in the constant-loop-bounds form only "
+        "(default loops are documented to use the field's internal/whole members)",
         "all fields of an invoke live on one grid; a go_offset_any kernel runs on grids of "
         "both offsets",
         "directives are executed with serial semantics (C09 covers schedules); PSyData / "
